@@ -146,3 +146,69 @@ def native(f, timeout=60):
         load_native()
         return f()
     return run_native(g, timeout)
+
+
+def _vars_of(terms):
+    seen, out, st = set(), set(), [t for t in terms if isz(t)]
+    while st:
+        x = st.pop()
+        if x.get_id() in seen:
+            continue
+        seen.add(x.get_id())
+        if z3.is_app(x) and x.num_args() == 0 and x.decl().kind() == z3.Z3_OP_UNINTERPRETED:
+            out.add(x.decl().name())
+        st.extend(x.children())
+    return out
+
+
+def result_terms(v, depth=0):
+    """z3 terms that make up a result value (shapes and a generic element of every array, fields of objects)"""
+    out = []
+    if depth > 4:
+        return out
+    if isz(v):
+        out.append(v)
+    elif isinstance(v, Cx):
+        out += [t for t in (v.re, v.im) if isz(t)]
+    elif isinstance(v, BVInt):
+        out.append(v.bv)
+    elif isinstance(v, Arr):
+        out += [d for d in v.shape if isz(d)]
+        idx = tuple(z3.Int(f'ix!{depth}_{j}') for j in range(v.ndim))
+        try:
+            out += result_terms(v.elem(idx), depth + 1)
+        except (Unsupported, SymRaise):
+            pass
+    elif isinstance(v, Obj):
+        for k, x in v.f.items():
+            if k != 'execution_time':
+                out += result_terms(x, depth + 1)
+    elif isinstance(v, (tuple, list)):
+        for x in v:
+            out += result_terms(x, depth + 1)
+    elif isinstance(v, dict):
+        for x in v.values():
+            out += result_terms(x, depth + 1)
+    return out
+
+
+def purity_violations(path, value):
+    """frame + determinism: stores into caller buffers, gv writes, wall-clock values flowing into the result or the control flow"""
+    bad = frame_violations(path)
+    names = _vars_of(result_terms(value) + [c for c in path.pc if isz(c)])
+    nd = sorted(n for n in names if n.startswith('nondet_'))
+    if nd:
+        bad.append(f'result or control flow depends on a non-deterministic source other than numpy.random: {nd}')
+    def arrays(v, d=0):
+        if isinstance(v, Arr):
+            yield v
+        elif isinstance(v, Obj) and d < 3:
+            for x in v.f.values():
+                yield from arrays(x, d + 1)
+        elif isinstance(v, (tuple, list)) and d < 3:
+            for x in v:
+                yield from arrays(x, d + 1)
+    for a in arrays(value):
+        if a.prov in path.ex.param_provs:
+            bad.append(f'returned array aliases the caller buffer {path.ex.param_provs[a.prov]}')
+    return bad
